@@ -25,7 +25,8 @@ FEATURES = (
     "collection, enum, flags, record, optional types; optionally +cpp/+java/+objc/+cppcli base records in the C02 stream), "
     "interfaces (+cpp, -cpp, unflagged; static methods only on +cpp; const; async with a return type; throws with error "
     "domains of the same namespace), named functions (±cpp, with parameters/returns of data types), inline function "
-    "parameters on interface methods, error domains (codes with primitive/enum/optional parameters), namespaces up to "
+    "parameters on interface methods (over built-ins; in the C07 streams also over user types of an enclosing namespace, spelled "
+    "unqualified, with identifiers of every character-class shape: digit→letter, letter→digit, lower→upper, `__`), error domains (codes with primitive/enum/optional parameters), namespaces up to "
     "depth 2 with program-wide unique declaration names (also for anonymous functions: unique signatures), generic nesting up to 3; "
     "identifiers outside all target keyword lists; no deriving, no @extern/@import, "
     "no self-referential function types, no async method without return type (DESIGN §9 rows 8-13, 38-57)"
@@ -244,6 +245,34 @@ SAFE_NAMES = ['foo', 'foo_bar', 'fooBar', 'a__b', 'x1_y2', 'Zed', 'e_', 'ABC_def
 MEMBER_NAMES = ['alpha', 'beta_two', 'gammaRay', 'd4', 'e__f', 'Gee', 'h_i_j', 'kk_', 'lastOne', 'm_n', 'op2', 'p_q9', 'value_x', 'idx', 'the_name']
 
 
+# identifiers whose character classes change in every way that matters to a case conversion (`str.title()`, `capitalize()`,
+# `convert(...)`): a letter directly after a digit, a digit after a letter, lower→upper, upper runs, `__`, digit segments
+SHAPE_NAMES = ['vec3f', 'point2d', 'a1b', 'x2_y', 'md5Sum', 'u8x_2y', 'fooBar2baz', 'r2D2', 'b__2c', 'Tx9Rx', 'utf8str', 'h264_nal', 'i18n']
+
+
+def shape_names(r: random.Random, k: int, avoid=()) -> list[str]:
+    """`k` identifiers, distinct up to letter case and underscores (so that no identifier style maps two of them to one name: C15):
+    half from `SHAPE_NAMES`, half random words over letters (both cases), digits and `_` that contain a digit (hence outside every
+    keyword list) — the class of identifiers on which case conversions differ"""
+    norm = lambda w: w.replace('_', '').lower()
+    out, seen = [], {norm(a) for a in avoid}
+    pool = r.sample(SHAPE_NAMES, len(SHAPE_NAMES))
+    while len(out) < k:
+        if pool and (len(out) % 2 == 0 or r.random() < 0.3):
+            w = pool.pop()
+        else:
+            n = r.randint(3, 7)
+            w = r.choice('abcxyzABXY')
+            pos = r.randrange(1, n)
+            for i in range(1, n):
+                w += r.choice('0123456789') if i == pos else r.choice('abcdxyz' * 3 + 'ABXY' * 2 + '0123456789' + '___')
+        if norm(w) in seen or w.endswith('__'):
+            continue
+        seen.add(norm(w))
+        out.append(w)
+    return out
+
+
 def T(base, args=(), opt=False):
     return {'base': base, 'args': list(args), 'opt': bool(opt)}
 
@@ -313,45 +342,54 @@ def render(decls) -> str:
 class ProgGen:
     """Random valid programs inside the closed feature set."""
 
-    def __init__(self, r: random.Random, java_compiles=False, base_records=False, max_decls=9):
+    def __init__(self, r: random.Random, java_compiles=False, base_records=False, max_decls=9, names=None, inline_user_types=False,
+                 inline_p=0.12, user_p=0.35, async_p=0.2, min_methods=0):
         self.r = r
         self.java_compiles = java_compiles      # C07: stay inside what javac accepts (throws only same namespace, …)
         self.base_records = base_records
         self.max_decls = max_decls
+        self.names = list(names) if names is not None else SAFE_NAMES
+        # inline function types may mention the user types they can spell without a qualifier (declared in an enclosing namespace)
+        self.inline_user_types = inline_user_types
+        self.inline_p = inline_p                # probability that a method parameter is an inline function type
+        self.user_p = user_p                    # probability that a non-generic type position refers to a user type
+        self.async_p = async_p
+        self.min_methods = min_methods
         self.used_fn_sigs = set()
 
     def members(self, n):
         return self.r.sample(MEMBER_NAMES, n)
 
-    def dtype(self, decls, depth=0, kinds=('enum', 'flags', 'record'), allow_opt=True, max_depth=2):
+    def dtype(self, decls, depth=0, kinds=('enum', 'flags', 'record'), allow_opt=True, max_depth=2, ref=ref_of):
         r = self.r
         m = r.random()
         cands = [d for d in decls if d['kind'] in kinds]
         if depth < max_depth and m < 0.25:
             g = r.choice(['list', 'set', 'map'])
             if g == 'map':
-                t = T('map', [T(r.choice(['string', 'i32', 'i64'])), self.dtype(decls, depth + 1, tuple(k for k in kinds if k not in ('function', 'interface')), True, max_depth)])
+                t = T('map', [T(r.choice(['string', 'i32', 'i64'])), self.dtype(decls, depth + 1, tuple(k for k in kinds if k not in ('function', 'interface')), True, max_depth, ref)])
             elif g == 'set':
                 t = T('set', [T(r.choice(['string', 'i32', 'i64', 'i8']))])
             else:
-                t = T('list', [self.dtype(decls, depth + 1, tuple(k for k in kinds if k not in ('function', 'interface')), True, max_depth)])
-        elif m < 0.65 or not cands:
+                t = T('list', [self.dtype(decls, depth + 1, tuple(k for k in kinds if k not in ('function', 'interface')), True, max_depth, ref)])
+        elif m < 1.0 - self.user_p or not cands:
             t = T(r.choice(PRIMS))
         else:
-            t = T(ref_of(r.choice(cands)))
+            t = T(ref(r.choice(cands)))
         if allow_opt and r.random() < 0.25:
             t['opt'] = True
         return t
 
-    def program(self):
+    def program(self, plan=None):
         r = self.r
-        n = r.randint(3, self.max_decls)
-        names = r.sample(SAFE_NAMES, n)
+        n = r.randint(3, self.max_decls) if plan is None else len(plan)
+        names = r.sample(self.names, n)
         nss = [[], [], [], ['n1'], ['n1', 'm_2'], ['Q']]
         kinds_pool = ['enum', 'flags', 'record', 'record', 'interface', 'interface', 'function', 'error']
         decls = []
         # fixed prefix so that every program has one of each value kind to refer to
-        plan = ['enum', 'flags', 'record'] + [r.choice(kinds_pool) for _ in range(n - 3)]
+        if plan is None:
+            plan = ['enum', 'flags', 'record'] + [r.choice(kinds_pool) for _ in range(n - 3)]
         shared_ns = r.choice(nss)
         for name, kind in zip(names, plan):
             d = {'kind': kind, 'name': name, 'ns': r.choice(nss)}
@@ -389,7 +427,7 @@ class ProgGen:
                 if errs:
                     d['ns'] = shared_ns
                 ms = []
-                for mn in self.members(r.randint(0, 4)):
+                for mn in self.members(r.randint(self.min_methods, 4)):
                     m = {'name': mn}
                     if d['flags'] == '+cpp' and r.random() < 0.25:
                         m['static'] = True
@@ -397,15 +435,21 @@ class ProgGen:
                         m['const'] = True
                     params = []
                     for pn in [x for x in self.members(r.randint(0, 3)) if x != mn]:
-                        if r.random() < 0.12:
+                        if r.random() < self.inline_p:
                             # inline function types: the generated name of the anonymous function embeds the spelling of the
-                            # types it mentions, so only unqualified spellings (built-ins) are inside the closed feature set
+                            # types it mentions, so only unqualified spellings are inside the closed feature set: built-ins and
+                            # (`inline_user_types`) user types declared in the interface's namespace or one enclosing it
                             # … and two anonymous functions of equal signature in different namespaces would be written to the same
-                            # JNI / ObjC++ file (C15, DESIGN §9 row 16): signatures are kept unique within a program
+                            # JNI / ObjC++ file (C15, DESIGN §9 row 16), two that differ only in `?` to the same file of every
+                            # generator: the generated names are kept unique within a program
+                            near = [x for x in earlier if x['ns'] == d['ns'][:len(x['ns'])]] if self.inline_user_types else []
+                            bare = lambda x: x['name']
                             for _ in range(6):
-                                fn = {'params': [(q, self.dtype([], depth=1)) for q in self.members(r.randint(0, 2))],
-                                      'ret': self.dtype([], depth=1) if r.random() < 0.5 else None}
-                                sig = (tuple(spell(t) for _, t in fn['params']), spell(fn['ret']) if fn['ret'] else None)
+                                fn = {'params': [(q, self.dtype(near, depth=1, kinds=('enum', 'flags', 'record', 'interface'), ref=bare))
+                                                 for q in self.members(r.randint(0, 2))],
+                                      'ret': self.dtype(near, depth=1, ref=bare) if r.random() < 0.5 else None}
+                                # the generated name drops `?` and the parameter names: unique up to that
+                                sig = (tuple(spell(t).replace('?', '') for _, t in fn['params']), spell(fn['ret']).replace('?', '') if fn['ret'] else None)
                                 if sig not in self.used_fn_sigs:
                                     self.used_fn_sigs.add(sig)
                                     params.append((pn, {'fn': fn}))
@@ -414,7 +458,7 @@ class ProgGen:
                             params.append((pn, self.dtype(earlier, kinds=('enum', 'flags', 'record', 'interface', 'function'))))
                     m['params'] = params
                     m['ret'] = self.dtype(earlier, kinds=('enum', 'flags', 'record', 'interface')) if r.random() < 0.65 else None
-                    if m['ret'] and r.random() < 0.2:
+                    if m['ret'] and r.random() < self.async_p:
                         m['async'] = True
                     if r.random() < 0.25:
                         m['throws'] = [ref_of(r.choice(errs))] if errs and r.random() < 0.7 else []
@@ -541,8 +585,9 @@ class Dump:
         return self
 
 
-def parse_program(cfg: dict, text: str, workdir: Path):
-    """Run the real front end + marshalling; returns the GenerateContext and the configured context."""
+def parse_program(cfg: dict, text: str, workdir: Path, api_object=None):
+    """Run the real front end + marshalling; returns the GenerateContext and the configured context.
+    `api_object`: an `API` object that was used before (call histories); default: a fresh one."""
     from pydjinni import API
     workdir.mkdir(parents=True, exist_ok=True)
     f = workdir / "m.djinni"
@@ -550,7 +595,7 @@ def parse_program(cfg: dict, text: str, workdir: Path):
     cwd = os.getcwd()
     os.chdir(workdir)
     try:
-        configured = API().configure(options=cfg)
+        configured = (api_object if api_object is not None else API()).configure(options=cfg)
         ctx = configured.parse(Path("m.djinni"))
     finally:
         os.chdir(cwd)
